@@ -357,9 +357,14 @@ fn hash_all<A: SxK>(x: &Side<A>, other_view: &SeqSlice<A>, out: &mut Out) {
                         ),
                     )
                 });
-                if s.bytes == base.bytes && s.calls != base.calls {
-                    out.count("hash: same bytes through different write_* calls (non-deciding)", 1);
-                }
+                // "any hasher": a word-at-a-time hasher (Fx-style) folds write(&[a, b]) and write_u8(a); write_u8(b)
+                // differently, so equal values must also make the same sequence of write_* calls
+                out.check(s.bytes != base.bytes || s.calls == base.calls, || {
+                    (
+                        format!("{cn}/hash/{name}-makes-different-write-calls-than-SeqSlice"),
+                        format!("{name} holding {} feeds the same {} bytes as the equal slice but through a different sequence of Hasher::write_* calls ({} vs {} call records)", show_cut(x.model), s.bytes.len(), s.calls.len(), base.calls.len()),
+                    )
+                });
             }
         }
     }
